@@ -46,7 +46,36 @@ let thick a b c d w : point list option =
   | Some l -> Some (Stdlib.List.map fst l)
 let rect_out (r : rect) = z_out r.tl.px ^ " " ^ z_out r.tl.py ^ " " ^ z_out r.sz.sw ^ " " ^ z_out r.sz.sh
 
+(* display-scale strokes (hundreds of thousands of pixels): flat_map / bresenham_run are not tail recursive, so the
+   driver iterates the model's parallels itself: for each (state, type) of Thickline.parallels it calls Line.bnext
+   major_length (- 1 for Extra) times -- the body of Thickline.thick_points *)
+let thick_walk a b c d w : string =
+  let l = ln a b c d in
+  match Thickline.parallels l (z_in w) Thickline.SONone with
+  | None -> "FUEL"
+  | Some pars ->
+    let eff = if Geometry.point_eqb l.Line.l_start l.Line.l_end then Thickline.horizontal_line else l in
+    let par = Line.bparams_new eff in
+    let len = int_of_z (Line.major_length l) in
+    let n = ref 0 and h = ref 7 and first = ref "none" and last = ref "none" in
+    Stdlib.List.iter (fun (bs, t) ->
+      let k = (match t with Thickline.LNormal -> len | Thickline.LExtra -> len - 1) in
+      let st = ref bs in
+      for _ = 1 to k do
+        let (q, s') = Line.bnext par !st in
+        st := s';
+        let x = int_of_z q.px and y = int_of_z q.py in
+        if !n = 0 then first := cpt q;
+        last := cpt q;
+        incr n;
+        h := (((!h * 31) mod md) + nn x * 3 + nn y) mod md
+      done) pars;
+    string_of_int !n ^ " " ^ !first ^ " " ^ !last ^ " " ^ string_of_int !h
+
 let init () =
+  register "thick_walk" (function
+    | [a; b; c; d; w] -> thick_walk a b c d w
+    | _ -> "BAD-ARGS");
   register "thick_pixels" (function
     | [a; b; c; d; w] -> (match thick a b c d w with None -> "FUEL" | Some l -> list_out cpt l)
     | _ -> "BAD-ARGS");
